@@ -46,6 +46,7 @@ PROP = dict(
           "as inconclusive, not judged. "
           "Reader skips (op 'sk'): the reader skips the next value / array / string - StreamBufferReader::skip, File::seek from the current position, "
           "Socket::skip - and must read the following items right; blocks of 1023..5000 bytes (String / ByteArray) are generated as skip targets. "
+          "In one case of 16 the File part first runs two writers at once (the case's thread and a second thread, each with its own File and file, 200 rounds of short/int/Long/double arrays in the case's order and in BIG or LITTLE): both files must hold exactly their own bytes. "
           "Non-trivial: the sequence contains a non-empty array of a multi-byte type, or an effective order switch, or NATIVE order, or a multi-byte "
           "array written again, or a cut inside a value whose next piece holds more than the rest of that value, or a later session of a reconnecting Socket that carries multi-byte data in BIG order without an order item of its own, or an untouched accepted Socket next to a BIG listener carrying multi-byte data, or multi-byte data in BIG order written / read through a copy of the configured File. Distinct = distinct FNV-1a hash of "
           "the serialised case."),
